@@ -8,6 +8,7 @@ import (
 	"fmt"
 	"net/url"
 	"sort"
+	"strconv"
 	"strings"
 	"testing"
 
@@ -58,10 +59,16 @@ func TestVerifC11(t *testing.T) {
 							if rep.OutOfBudget() {
 								return
 							}
-							c11Run(rep, srv, a, s.path, ttl, mode, periods, tsbd, start, quick, false)
+							c11Run(rep, srv, a, s.path, ttl, mode, periods, tsbd, start, quick, false, 0)
 							if periods == 0 && start == 0 && tsbd == 60 && mode != "number" {
 								// a stop time inside the walked interval: the last patch of a session crosses it
-								c11Run(rep, srv, a, s.path, ttl, mode, periods, tsbd, start, quick, true)
+								c11Run(rep, srv, a, s.path, ttl, mode, periods, tsbd, start, quick, true, 0)
+								// an availabilityTimeOffset: the MPD changes ato before every segment end
+								for _, ato := range []int64{1000, 500} {
+									if ato < a.LoopMS/int64(len(a.Ref.Segs)) && (!quick || ttl == 10) {
+										c11Run(rep, srv, a, s.path, ttl, mode, periods, tsbd, start, quick, false, ato)
+									}
+								}
 							}
 						}
 					}
@@ -71,7 +78,7 @@ func TestVerifC11(t *testing.T) {
 	}
 }
 
-func c11Run(rep *vh.Report, srv *Server, a *vref.VAsset, asset string, ttl int, mode string, periods int, tsbd, start int64, quick bool, withStop bool) {
+func c11Run(rep *vh.Report, srv *Server, a *vref.VAsset, asset string, ttl int, mode string, periods int, tsbd, start int64, quick bool, withStop bool, atoMS int64) {
 	v := a.Ref
 	var parts []string
 	switch mode {
@@ -87,6 +94,12 @@ func c11Run(rep *vh.Report, srv *Server, a *vref.VAsset, asset string, ttl int, 
 	if periods > 0 {
 		parts = append(parts, fmt.Sprintf("periods_%d", periods))
 	}
+	minSegMS := int64(1 << 40)
+	for _, sg := range v.Segs {
+		if d := int64(sg.Dur() * 1000 / v.TS); d < minSegMS && d > 0 {
+			minSegMS = d
+		}
+	}
 	mpdName := vMPDNameFor(a, v.ID)
 	ast := start * 1000
 	segMS := a.LoopMS / int64(len(v.Segs))
@@ -94,6 +107,9 @@ func c11Run(rep *vh.Report, srv *Server, a *vref.VAsset, asset string, ttl int, 
 	if withStop {
 		stopMS = (ast + 50_000 + int64(ttl)*500 + segMS/2) / 1000 * 1000
 		parts = append(parts, fmt.Sprintf("stop_%d", stopMS/1000))
+	}
+	if atoMS > 0 {
+		parts = append(parts, fmt.Sprintf("ato_%d.%03d", atoMS/1000, atoMS%1000))
 	}
 	prefix := vCfgPrefix(parts...)
 	// instants: every availability instant (+-1 ms) from a base far enough for a full window, over TTL + 2 segments
@@ -111,6 +127,9 @@ func c11Run(rep *vh.Report, srv *Server, a *vref.VAsset, asset string, ttl int, 
 		}
 		set[e-1], set[e], set[e+1] = true, true, true
 		set[e+tsbd*1000%segMS] = true
+		if atoMS > 0 {
+			set[e-atoMS-1], set[e-atoMS], set[e-atoMS+1], set[e-atoMS/2] = true, true, true, true
+		}
 	}
 	if stopMS > 0 {
 		set[stopMS-1], set[stopMS], set[stopMS+1], set[stopMS+700] = true, true, true, true
@@ -165,7 +184,7 @@ func c11Run(rep *vh.Report, srv *Server, a *vref.VAsset, asset string, ttl int, 
 		mpds[t] = m
 		return m
 	}
-	tag := mode + vIf(periods > 0, ":periods", "") + vIf(withStop, ":stop", "")
+	tag := mode + vIf(periods > 0, ":periods", "") + vIf(withStop, ":stop", "") + vIf(atoMS > 0, ":ato", "")
 	for i, t1 := range ts {
 		if stopMS > 0 && t1 >= stopMS {
 			break // after the stop time the MPD is static and offers no patch
@@ -180,12 +199,17 @@ func c11Run(rep *vh.Report, srv *Server, a *vref.VAsset, asset string, ttl int, 
 			rep.Violate("C11.loc", "no-patch-location:"+tag, fmt.Sprintf("%s %s t=%d: PatchLocation %q ttl %q", asset, prefix, t1, m1.loc, m1.ttl), nil)
 			return
 		}
-		// is MPD(t1) the document its publishTime identifies? (otherwise the known C05 finding applies)
+		// is MPD(t1) the document its publishTime identifies? (otherwise the known C05 finding applies:
+		// segments have left the time-shift window, or a Period has come or gone, without a new publishTime)
 		pubMS, err := vref.DateMS(m1.pub)
 		baseOK := err == nil
+		baseExplained := true
 		if baseOK {
 			mb := get(pubMS + 1)
 			baseOK = mb != nil && mb.doc.Canon() == m1.doc.Canon()
+			if !baseOK && mb != nil && periods == 0 && !withStop {
+				baseExplained = c11WindowStartOnly(mb.doc, m1.doc, int((t1-pubMS)/minSegMS)+1)
+			}
 		}
 		for _, t2 := range ts[i:] {
 			if t2-t1 > int64(ttl)*1000+2*segMS {
@@ -206,8 +230,10 @@ func c11Run(rep *vh.Report, srv *Server, a *vref.VAsset, asset string, ttl int, 
 			rep.AddExecs(1)
 			in := map[string]any{"mpd_url_t1": fmt.Sprintf("%s/%s/%s?nowMS=%d", prefix, asset, mpdName, t1), "patch_url": purl, "t2": t2}
 			viol := func(clause, sig, msg string) {
-				if !baseOK {
+				if !baseOK && baseExplained {
 					sig = "stale-base:" + sig // MPD(t1) differs from the MPD at its own publishTime: consequence of the C05 finding
+				} else if !baseOK {
+					sig = "base-differs-beyond-window-start:" + sig // ... but by more than segments leaving the window can explain
 				}
 				rep.Violate(clause, sig+":"+tag, fmt.Sprintf("%s %s t1=%d t2=%d: %s", asset, prefix, t1, t2, msg), in)
 			}
@@ -223,7 +249,11 @@ func c11Run(rep *vh.Report, srv *Server, a *vref.VAsset, asset string, ttl int, 
 				if pr.Code != 425 {
 					viol("C11.same", fmt.Sprintf("unchanged-status-%d", pr.Code), fmt.Sprintf("same publishTime %s but patch request answered %d", m1.pub, pr.Code))
 				} else if !same {
-					viol("C11.same", "425-although-changed", "MPD content changed (same publishTime) and the patch request answered 425")
+					if periods == 0 && !withStop && !c11WindowStartOnly(m1.doc, m2.doc, int((t2-t1)/minSegMS)+1) {
+						viol("C11.same", "425-although-changed:beyond-window-start", "MPD content changed (same publishTime) by more than segments leaving the time-shift window, and the patch request answered 425: "+c11Diff(m1.doc.Canon(), m2.doc.Canon()))
+					} else {
+						viol("C11.same", "425-although-changed", "MPD content changed (same publishTime) and the patch request answered 425")
+					}
 				}
 			case pub2MS-pubMS > int64(ttl)*1000+int64(segMS)+11000:
 				rep.Hit("C11.gone")
@@ -273,4 +303,76 @@ func c11Diff(a, b string) string {
 		}
 	}
 	return fmt.Sprintf("%d vs %d lines", len(la), len(lb))
+}
+
+// c11WindowStartOnly reports whether two MPDs differ in nothing but segments that have left the start of the
+// time-shift window: every SegmentTimeline of one is a suffix of the other's (at most maxDrop entries shorter),
+// startNumber follows, everything else is equal. This is the only way the known publishTime finding changes a
+// single-period MPD without changing publishTime.
+func c11WindowStartOnly(x, y *vref.XNode, maxDrop int) bool {
+	type seg struct{ t, d uint64 }
+	expand := func(tl *vref.XNode) []seg {
+		var out []seg
+		var t uint64
+		for _, c := range tl.Children {
+			if c.Name != "S" {
+				continue
+			}
+			if v, ok := c.Attr("t"); ok {
+				t, _ = strconv.ParseUint(v, 10, 64)
+			}
+			dv, _ := c.Attr("d")
+			d, _ := strconv.ParseUint(dv, 10, 64)
+			r := 0
+			if v, ok := c.Attr("r"); ok {
+				r, _ = strconv.Atoi(v)
+			}
+			for k := 0; k <= r; k++ {
+				out = append(out, seg{t, d})
+				t += d
+			}
+		}
+		return out
+	}
+	cx, cy := x.Clone(), y.Clone()
+	var tx, ty []*vref.XNode
+	strip := func(dst *[]*vref.XNode) func(n, parent *vref.XNode, idx int) {
+		return func(n, parent *vref.XNode, idx int) {
+			if n.Name == "SegmentTimeline" {
+				*dst = append(*dst, n)
+				if parent != nil {
+					var at []vref.XAttr
+					for _, a := range parent.Attrs {
+						if a.Name != "startNumber" {
+							at = append(at, a)
+						}
+					}
+					parent.Attrs = at
+				}
+			}
+		}
+	}
+	cx.Walk(strip(&tx))
+	cy.Walk(strip(&ty))
+	if len(tx) != len(ty) {
+		return false
+	}
+	for i := range tx {
+		lx, ly := expand(tx[i]), expand(ty[i])
+		short, long := lx, ly
+		if len(short) > len(long) {
+			short, long = long, short
+		}
+		if len(long)-len(short) > maxDrop {
+			return false
+		}
+		off := len(long) - len(short)
+		for k := range short {
+			if long[off+k] != short[k] {
+				return false
+			}
+		}
+		tx[i].Children, ty[i].Children = nil, nil
+	}
+	return cx.Canon() == cy.Canon()
 }
